@@ -14,6 +14,11 @@
 (*              (at = 0 context, h > 0 handle h, -1 answered, -2 lost)     *)
 (*   Tier 2:    max/own/attached/target/clen/cval/handles mirror           *)
 (*              struct reply_context_defer and struct replyDataDelayed.    *)
+(* mode "stream": the reply context of a stream input (mptio               *)
+(*              stream_input.c): a request frame <<id bytes>> \o payload   *)
+(*              is dispatched to a handler that answers through ev->reply  *)
+(*              (or not at all); what goes back over the wire is observed  *)
+(*              at the peer as frames.                                     *)
 (* obs = what the last call was given (arg), must answer (exp) and which   *)
 (* requests it spoke for (g, ghost).                                       *)
 (***************************************************************************)
@@ -25,7 +30,8 @@ CONSTANTS Widths,    \* id capacities (reply_data._max) a context is created wit
           LimbDom,   \* limb values ids are built from (mode "id")
           IdWidths,  \* header widths of mode "id"
           MsgDom,    \* message payloads offered to reply calls
-          TextDom    \* <<code, text>> pairs offered to mpt_context_reply
+          TextDom,   \* <<code, text>> pairs offered to mpt_context_reply
+          StreamWidths \* id widths of stream inputs (mode "stream")
 
 VARIABLES mode,
           max, target, own, attached, clen, cval, handles,   \* Tier 2
@@ -230,6 +236,40 @@ AddRef ==
   /\ Answer("addref", [x |-> 0], "ok", <<>>, {})
 
 ---------------------------------------------------------------------------
+(* mode "stream": requests arriving on a stream input with id width max.   *)
+(* The handler is scripted: act = "none" (no answer: the input sends the   *)
+(* default answer <<Answer, code>>), "reply" (one answer with data),       *)
+(* "reply2" (a second attempt after the first), hret = its return value.   *)
+(* A frame whose id is all zero asks for no answer.                        *)
+AllZero(b) == \A i \in DOMAIN b : b[i] = 0
+ByteOf(n)  == IF n < 0 THEN 256 + n ELSE n
+StreamRequest(b, payload, act, data, hret) ==
+  LET arg == [id |-> b, payload |-> payload, act |-> act, data |-> data, hret |-> hret]
+      answer == IF act = "none" THEN <<AnswerCmd, IF hret < 0 THEN ByteOf(hret) ELSE 0>> ELSE data
+  IN
+  /\ mode = "stream" /\ Len(b) = max /\ b[1] < 128
+  /\ reqs' = IF AllZero(b) THEN reqs ELSE Append(reqs, [id |-> b, at |-> -1])
+  /\ ctr' = ctr + 1
+  /\ UNCHANGED <<mode, max, target, own, attached, clen, cval, handles>>
+  /\ obs' = [a |-> "srequest", arg |-> arg, g |-> IF AllZero(b) THEN {} ELSE {Len(reqs) + 1},
+             exp |-> [seen   |-> <<[id |-> Zero, reply |-> IF AllZero(b) THEN 0 ELSE 1, payload |-> payload]>>,
+                      frames |-> IF AllZero(b) THEN <<>> ELSE <<[id |-> Mark(b), data |-> answer]>>,
+                      r2     |-> IF act = "reply2" /\ ~AllZero(b) THEN "refused" ELSE "none"]]
+\* an attempt through the context after its request was answered: refused, nothing sent
+StreamLate(data) ==
+  /\ mode = "stream" /\ reqs # <<>>
+  /\ UNCHANGED state
+  /\ obs' = [a |-> "slate", arg |-> [data |-> data], g |-> {},
+             exp |-> [ret |-> "refused", frames |-> <<>>]]
+\* an incoming answer (marker set): handed to the handler with the decoded id, never answered
+StreamAnswer(b, payload) ==
+  /\ mode = "stream" /\ Len(b) = max /\ b[1] >= 128 /\ RefBuf2Id(Unmark(b)).ok
+  /\ UNCHANGED state
+  /\ obs' = [a |-> "sanswer", arg |-> [id |-> b, payload |-> payload], g |-> {},
+             exp |-> [seen |-> <<[id |-> RefBuf2Id(Unmark(b)).id, reply |-> 0, payload |-> payload]>>,
+                      frames |-> <<>>]]
+
+---------------------------------------------------------------------------
 \* distinguishable request ids: width n, marker bit free, last byte counts
 IdBytes(n) == [i \in 1..n |-> IF i = n THEN (ctr % 100) + 1 ELSE IF i = 1 THEN 127 ELSE 0]
 Msgs == {[null |-> 0, data |-> d] : d \in MsgDom} \cup {NoMsg}
@@ -248,7 +288,15 @@ InitId ==
   /\ reqs = <<>> /\ ctr = 0
   /\ obs = [a |-> "init", g |-> {}, arg |-> [mode |-> "id"], exp |-> [ret |-> "ok"]]
 
-Init == InitId \/ \E m \in Widths, t \in BOOLEAN, at \in BOOLEAN : InitCtx(m, t, at)
+InitStream(m) ==
+  /\ mode = "stream" /\ max = m /\ target = TRUE /\ attached = TRUE
+  /\ own = 0 /\ clen = 0 /\ cval = <<>> /\ handles = [h \in 1..MaxH |-> <<>>]
+  /\ reqs = <<>> /\ ctr = 0
+  /\ obs = [a |-> "init", g |-> {}, arg |-> [mode |-> "stream", max |-> m], exp |-> [ret |-> "ok"]]
+
+Init == \/ InitId
+        \/ \E m \in Widths, t \in BOOLEAN, at \in BOOLEAN : InitCtx(m, t, at)
+        \/ \E m \in StreamWidths : InitStream(m)
 
 IdDom  == [1..4 -> LimbDom]
 BufDom == UNION {[1..n -> {0, 1, 128, 255}] : n \in 0..4} \cup UNION {[1..n -> {0, 255}] : n \in 5..10}
@@ -267,13 +315,20 @@ NextCtx ==
   \/ \E tv \in TV, d \in BOOLEAN : ReleaseCtx(tv, d)
   \/ AddRef
 
-Next == NextId \/ NextCtx
+NextStream ==
+  \/ \E act \in {"none", "reply", "reply2"}, hret \in {0, -3}, d \in MsgDom \ {<<>>} :
+        \/ StreamRequest(IdBytes(max), <<4, 58, 103>>, act, d, hret)
+        \/ StreamRequest(Zeros(max), <<9>>, act, d, hret)
+  \/ \E d \in MsgDom \ {<<>>} : StreamLate(d)
+  \/ StreamAnswer(Mark(IdBytes(max)), <<1, 0>>)
+
+Next == NextId \/ NextCtx \/ NextStream
 Spec == Init /\ [][Next]_vars
 
 ---------------------------------------------------------------------------
 (* invariants *)
 TypeOK ==
-  /\ mode \in {"id", "ctx"} /\ own \in 0..MaxOwn /\ clen \in 0..max
+  /\ mode \in {"id", "ctx", "stream"} /\ own \in 0..MaxOwn /\ clen \in 0..max
   /\ clen = Len(cval)
   /\ \A h \in 1..MaxH : Len(handles[h]) <= max
   /\ \A r \in DOMAIN reqs : reqs[r].at \in (-2)..MaxH
@@ -292,7 +347,7 @@ Refines ==
 \* every message handed to the transport speaks for exactly one request that
 \* was outstanding before the call, in the place the call acted on, and
 \* carries that request's own id marked as reply; at most one per call
-SendsRight == [][mode = "ctx" =>
+SendsRight == [][(mode' = "ctx" /\ obs'.a # "init") =>
   /\ Len(obs'.exp.sends) <= 1
   /\ Len(obs'.exp.sends) = Cardinality(obs'.g)
   /\ \A r \in obs'.g :
@@ -305,7 +360,7 @@ SendsRight == [][mode = "ctx" =>
 \* so (with SendsRight) no request sees a second message after an accepted one
 Final == [][obs'.a # "init" =>   \* ("init" = start of the next recorded execution)
               \A r \in DOMAIN reqs : reqs[r].at < 0 => (r \in DOMAIN reqs' /\ reqs'[r] = reqs[r])]_vars
-Accepted == [][\A r \in obs'.g : obs'.arg.tv = "ok" => reqs'[r].at = -1]_vars
+Accepted == [][(mode' = "ctx" /\ obs'.a # "init") => \A r \in obs'.g : obs'.arg.tv = "ok" => reqs'[r].at = -1]_vars
 \* with nothing outstanding in the context a reply attempt is refused and sends nothing
 RefusedAfter == [][(obs'.a \in {"reply", "replytext"} /\ HeldAt(0) = {})
                    => (obs'.exp.ret = "refused" /\ obs'.exp.sends = <<>>)]_vars
@@ -322,6 +377,14 @@ DefaultOnRelease == [][
 \* arming touches the armed id only
 ArmFrame == [][obs'.a = "arm" => (UNCHANGED <<max, target, own, attached, handles>>
                                   /\ obs'.exp.sends = <<>> /\ obs'.exp.intact = 1)]_vars
+
+\* mode "stream": a request that asks for an answer gets exactly one frame back, carrying its
+\* own id marked as reply (the requester reads its id back); nothing else is ever sent
+StreamOnce == [][(mode' = "stream" /\ obs'.a # "init") =>
+  /\ Len(obs'.exp.frames) = Cardinality(obs'.g)
+  /\ \A r \in obs'.g : /\ reqs'[r].at = -1
+                       /\ obs'.exp.frames[1].id[1] >= 128
+                       /\ RefBuf2Id(Unmark(obs'.exp.frames[1].id)) = RefBuf2Id(reqs'[r].id)]_vars
 
 \* mode "id": the byte loops compute the positional meaning; what was written reads back
 IdTiers == [][
